@@ -46,6 +46,7 @@ def handle (j : Json) : Except String Json := do
   | "prec_expr" => Driver.precExpr j
   | "build_expr" => Driver.buildExprOp j
   | "time_expr" => Driver.timeExpr j
+  | "arch_instances" => Driver.archInstances j
   | "default_order" => Driver.defaultOrder j
   | _ => throw s!"unknown op {op}"
 
